@@ -87,3 +87,24 @@ package unserializers
 //@   inline
 //@   requires [C01:pre] f != nil
 //@   ensures [C01:spdx:filenode:scalars] result != nil && spdxFileNodeOf(result, f)
+
+// ---------------------------------------------------------------------------
+// C02: where each attribute of a CycloneDX component lands in the node (reader side)
+// ---------------------------------------------------------------------------
+//@ func CDX.componentTypeToPurpose
+//@   props C02
+//@   shadow
+
+//@ pred cdxNodeOf(m *sbom.Node, c *cyclonedx.Component) = (c.BOMRef != "" ==> m.Id == c.BOMRef) && m.Name == c.Name && m.Version == c.Version && m.Copyright == c.Copyright && m.Description == c.Description && m.Identifiers != nil && (c.PackageURL != "" ==> (1 in m.Identifiers) && m.Identifiers[1] == c.PackageURL) && ((m.Type == 1) <==> (CDX.componentTypeToPurpose(nil, c.Type) == 12)) && (m.Type == 0 || m.Type == 1)
+
+//@ func CDX.componentToNode
+//@   props C02
+//@   inline
+//@   requires [C02:pre] c != nil && cc != nil
+//@   ensures [C02:cdx:node:scalars] result1 == nil && result0 != nil && cdxNodeOf(result0, c)
+//@   invariant L0: [C02:inv] node != nil && fresh(node) && node.Identifiers != nil && node.Hashes != nil && node.Identifiers != node.Hashes
+//@   invariant L0: [C02:inv] c.PackageURL != "" ==> (1 in node.Identifiers) && node.Identifiers[1] == c.PackageURL
+
+// writer contract + reader contract ==> the scalar attributes, the purl and the file kind survive
+// (JSON layer: trusted identity on these fields); sbom.Purpose_FILE == 12
+//@ lemma cdxComponentScalarsRoundTrip [C02]: forall c *cyclonedx.Component, n *sbom.Node, m *sbom.Node :: c != nil && n != nil && m != nil && n.Id != "" && serializers.cdxCompOf(c, n) && cdxNodeOf(m, c) ==> m.Id == n.Id && m.Name == n.Name && m.Version == n.Version && m.Description == n.Description && m.Copyright == n.Copyright && ((n.Identifiers != nil && (1 in n.Identifiers) && n.Identifiers[1] != "") ==> (1 in m.Identifiers) && m.Identifiers[1] == n.Identifiers[1]) && (n.Type == 1 && CDX.componentTypeToPurpose(nil, "file") == 12 ==> m.Type == 1)
